@@ -459,7 +459,7 @@ pub fn run(tier: Tier, seed: u64, replay: Option<&std::path::Path>) -> i32 {
         }
     }
     let cases = match tier {
-        Tier::Quick => 800,
+        Tier::Quick => 2400,
         Tier::Thorough => 12_000,
     };
     let out = run_sharded("C02", seed, cases, 150, strategy, run_case);
